@@ -1803,8 +1803,8 @@ impl RdfExpressionPredicate {
             BinaryFilterOp::And => Some(Value::Bool(left.as_bool()? && right.as_bool()?)),
             BinaryFilterOp::Or => Some(Value::Bool(left.as_bool()? || right.as_bool()?)),
             BinaryFilterOp::Xor => Some(Value::Bool(left.as_bool()? != right.as_bool()?)),
-            BinaryFilterOp::Eq => Some(Value::Bool(left == right)),
-            BinaryFilterOp::Ne => Some(Value::Bool(left != right)),
+            BinaryFilterOp::Eq => Some(Value::Bool(rdf_values_equal(left, right))),
+            BinaryFilterOp::Ne => Some(Value::Bool(!rdf_values_equal(left, right))),
             BinaryFilterOp::Lt => compare_values(left, right, |o| o.is_lt()),
             BinaryFilterOp::Le => compare_values(left, right, |o| o.is_le()),
             BinaryFilterOp::Gt => compare_values(left, right, |o| o.is_gt()),
@@ -2539,6 +2539,27 @@ fn value_to_string(value: &Value) -> String {
             let parts: Vec<String> = v.iter().map(|f| f.to_string()).collect();
             format!("vector([{}])", parts.join(", "))
         }
+    }
+}
+
+/// Equality of two RDF values. Numeric literals come back from the store as strings, so a
+/// number and a string (or an integer and a float) are compared by value, as the ordering
+/// operators already do; everything else is compared as is.
+fn rdf_values_equal(left: &Value, right: &Value) -> bool {
+    let mixed_numeric = matches!(
+        (left, right),
+        (Value::String(_), Value::Int64(_) | Value::Float64(_))
+            | (Value::Int64(_) | Value::Float64(_), Value::String(_))
+            | (Value::Int64(_), Value::Float64(_))
+            | (Value::Float64(_), Value::Int64(_))
+    );
+    if mixed_numeric {
+        matches!(
+            compare_values(left, right, |o| o.is_eq()),
+            Some(Value::Bool(true))
+        )
+    } else {
+        left == right
     }
 }
 
